@@ -1,9 +1,191 @@
-//! C15 sessions (seeded driver). Fill in.
+//! C15 sessions against the bundled tz provider.
+//!
+//! `tvh record c15 <seed> <cap> <out> lookup <part> <nparts>`: for every zone of the tier (quick: ~40 chosen
+//! zones, thorough: every Zone/Link name of tzdata.zi; zones with index % nparts == part), in provider
+//! sessions of a few zones each: a `Tzdb.table` event (the table read with the tzif crate's parser), then
+//! `Tzdb.offset` / `Tzdb.local` queries around table transitions (at most `cap` per zone), around rule-based
+//! transitions after the table, at year starts, and in unknown zones; earlier queries are asked again later
+//! in the session (history). `... ids`: `Tzdb.names`, then `Tzdb.check` for every name in four spellings
+//! and for mutated non-names.
+//!
+//! The driver only chooses inputs (its own arithmetic below is used for nothing else); every answer is
+//! judged by spec/trace/Trace_Tzif.tla from the table event.
 use super::Tracer;
 use crate::gen::*;
+use crate::ops_tzdb::iana_names;
 use crate::rng::Rng;
-use serde_json::json;
+use serde_json::{json, Value};
+
+pub const QUICK_ZONES: [&str; 42] = [
+    "Europe/Dublin", "America/New_York", "Australia/Sydney", "Asia/Kolkata", "Africa/Casablanca", "Etc/GMT+5", "UTC",
+    "Pacific/Apia", "America/St_Johns", "Asia/Kathmandu", "Europe/London", "Europe/Berlin", "Europe/Lisbon", "Europe/Moscow",
+    "Europe/Chisinau", "Asia/Gaza", "Asia/Jerusalem", "Asia/Tehran", "Asia/Tokyo", "Asia/Kabul", "Asia/Pyongyang",
+    "Africa/Cairo", "Africa/Monrovia", "Africa/Windhoek", "Africa/El_Aaiun", "Africa/Juba", "America/Santiago", "America/Sao_Paulo",
+    "America/Nuuk", "America/Scoresbysund", "America/Havana", "America/Caracas", "America/Phoenix", "America/Anchorage",
+    "Antarctica/Troll", "Antarctica/Casey", "Australia/Lord_Howe", "Pacific/Chatham", "Pacific/Kiritimati", "Pacific/Norfolk",
+    "Atlantic/Azores", "Etc/GMT-14",
+];
+
+// ---------- input helpers ----------
+fn pt(sec: i64, ns: i64) -> Value { json!({"d": sec.div_euclid(86_400), "s": sec.rem_euclid(86_400), "ns": ns}) }
+fn local_json(sec: i64, ns: i64) -> Value {
+    let (y, m, d) = civil(sec.div_euclid(86_400));
+    let s = sec.rem_euclid(86_400);
+    json!({"y": y, "m": m, "d": d, "h": s / 3600, "mi": s % 3600 / 60, "s": s % 60, "ms": ns / 1_000_000, "us": ns / 1000 % 1000, "ns": ns % 1000})
+}
+fn is_leap(y: i64) -> bool { (y % 4 == 0 && y % 100 != 0) || y % 400 == 0 }
+fn dim(y: i64, m: i64) -> i64 { match m { 2 => if is_leap(y) { 29 } else { 28 }, 4 | 6 | 9 | 11 => 30, _ => 31 } }
+/// local second (relative to the epoch, as if local were UTC) at which rule `r` fires in year y
+fn rule_local(r: &Value, y: i64) -> i64 {
+    let t = r["t"].as_i64().unwrap();
+    let day = match r["k"].as_str().unwrap() {
+        "J" => { let n = r["n"].as_i64().unwrap(); days_from_civil(y, 1, 1) + n - 1 + if is_leap(y) && n >= 60 { 1 } else { 0 } }
+        "N" => days_from_civil(y, 1, 1) + r["n"].as_i64().unwrap(),
+        _ => {
+            let (m, w, d) = (r["m"].as_i64().unwrap(), r["w"].as_i64().unwrap(), r["d"].as_i64().unwrap());
+            let first = days_from_civil(y, m, 1);
+            let dow = (first + 4).rem_euclid(7); // 0 = Sunday
+            let mut c = first + (d - dow).rem_euclid(7) + 7 * (w - 1);
+            if c >= first + dim(y, m) { c -= 7; }
+            c
+        }
+    };
+    day * 86_400 + t
+}
+
+struct Q { op: &'static str, args: Value }
+
+fn queries_for(zone: &str, tab: &Value, r: &mut Rng, cap: usize, thorough: bool) -> Vec<Q> {
+    let mut q: Vec<Q> = Vec::new();
+    let off_q = |q: &mut Vec<Q>, sec: i64, ns: i64| q.push(Q { op: "Tzdb.offset", args: json!({"zone": zone, "t": pt(sec, ns)}) });
+    let loc_q = |q: &mut Vec<Q>, sec: i64, ns: i64| q.push(Q { op: "Tzdb.local", args: json!({"zone": zone, "local": local_json(sec, ns)}) });
+    // around a change from offset a to offset b at UTC second t
+    let around = |q: &mut Vec<Q>, r: &mut Rng, t: i64, a: i64, b: i64, subsec: bool| {
+        for dt in [-1, 0, 1] { off_q(q, t + dt, 0); }
+        if subsec { off_q(q, t - 1, 999_999_999); off_q(q, t, 1); }
+        let (lo, hi) = (a.min(b), a.max(b));
+        let mut ls = vec![t + lo - 1, t + lo, t + hi - 1, t + hi, t + hi + 1];
+        if hi - lo > 2 { ls.push(t + lo + r.range(1, hi - lo - 1)); }
+        ls.sort(); ls.dedup();
+        for l in ls { loc_q(q, l, 0); }
+        if subsec { loc_q(q, t + lo - 1, 999_999_999); loc_q(q, t + hi, 500_000_000); }
+    };
+    let types = tab["types"].as_array().unwrap();
+    let trans = tab["trans"].as_array().unwrap();
+    let tsec = |i: usize| trans[i]["d"].as_i64().unwrap() * 86_400 + trans[i]["s"].as_i64().unwrap();
+    let toff = |ty: i64| types[(ty - 1) as usize]["off"].as_i64().unwrap();
+    // which table transitions
+    let n = trans.len();
+    let mut pick: Vec<usize> = (0..n).collect();
+    if n > cap {
+        let edge = (cap / 4).max(2);
+        let mut s: Vec<usize> = (0..edge).chain(n - edge..n).collect();
+        while s.len() < cap { let i = r.range(0, n as i64 - 1) as usize; if !s.contains(&i) { s.push(i); } }
+        s.sort(); pick = s;
+    }
+    for (k, &i) in pick.iter().enumerate() {
+        let prev = if i == 0 { 1 } else { trans[i - 1]["ty"].as_i64().unwrap() };
+        around(&mut q, r, tsec(i), toff(prev), toff(trans[i]["ty"].as_i64().unwrap()), thorough || k % 3 == 0);
+    }
+    // far before the first / after the last transition, year starts
+    let years: &[i64] = &[1, 1000, 1800, 1850, 1900, 1950, 1970, 2000, 2037, 2038, 2039, 2100, 2400, 9999];
+    for &y in years {
+        let s = days_from_civil(y, 1, 1) * 86_400;
+        off_q(&mut q, s, 0);
+        loc_q(&mut q, s + 43_200, 0);
+        loc_q(&mut q, days_from_civil(y, 7, 1) * 86_400 + 43_200, 0);
+    }
+    off_q(&mut q, days_from_civil(9999, 12, 31) * 86_400 + 86_399, 999_999_999);
+    off_q(&mut q, 2_147_483_647, 0); off_q(&mut q, 2_147_483_648, 0); off_q(&mut q, -2_147_483_648, 0); off_q(&mut q, -2_147_483_649, 0);
+    off_q(&mut q, 0, 0); off_q(&mut q, -1, 999_999_999);
+    if n > 0 { off_q(&mut q, tsec(0) - 31_536_000, 0); off_q(&mut q, tsec(n - 1) + 1, 0); off_q(&mut q, tsec(n - 1) + 315_360_000, 0); }
+    // rule-based transitions after the table
+    let f = &tab["footer"];
+    if f["kind"] == "rule" {
+        let (std, dst) = (f["std"].as_i64().unwrap(), f["dst"].as_i64().unwrap());
+        let last_year = if n > 0 { civil(tsec(n - 1).div_euclid(86_400)).0 } else { 1969 };
+        let mut ys: Vec<i64> = if thorough { (2038..=2100).collect() } else { vec![2038, 2039, 2040, 2050, 2099, 2100, r.range(2041, 2098), r.range(2101, 2399)] };
+        ys.extend([2400, 9999, last_year + 1]);
+        if n == 0 { ys.extend([1, 1900, 1970, 2000]); }
+        ys.sort(); ys.dedup();
+        for (k, y) in ys.into_iter().enumerate() {
+            if y <= last_year { continue; }
+            around(&mut q, r, rule_local(&f["start"], y) - std, std, dst, thorough || k % 4 == 0);
+            around(&mut q, r, rule_local(&f["end"], y) - dst, dst, std, thorough || k % 4 == 1);
+            // mid-summer and mid-winter
+            off_q(&mut q, days_from_civil(y, 1, 15) * 86_400 + 43_200, 0);
+            off_q(&mut q, days_from_civil(y, 7, 15) * 86_400 + 43_200, 0);
+        }
+    }
+    q
+}
+
+fn lookup(t: &mut Tracer, r: &mut Rng, cap: usize, part: usize, nparts: usize) {
+    let thorough = std::env::var("VERIF_TIER").map(|v| v == "thorough").unwrap_or(false);
+    let all: Vec<String> = if thorough { iana_names() } else { QUICK_ZONES.iter().map(|s| s.to_string()).collect() };
+    let zones: Vec<&String> = all.iter().enumerate().filter(|(i, _)| i % nparts == part).map(|(_, z)| z).collect();
+    for (gi, group) in zones.chunks(3).enumerate() {
+        t.call("Tzdb.fresh", json!({}));
+        let mut asked: Vec<(String, Value)> = Vec::new();
+        // a failing query first in every other session: it must leave nothing behind
+        if gi % 2 == 0 {
+            t.call("Tzdb.table", json!({"zone": "Nowhere/Land"}));
+            t.call("Tzdb.offset", json!({"zone": "Nowhere/Land", "t": pt(1_000_000_000, 0)}));
+        }
+        for z in group {
+            let tab = t.call("Tzdb.table", json!({"zone": z}));
+            if tab["kind"] != "ok" { continue; }
+            let qs = queries_for(z, &tab["val"], r, cap, thorough);
+            for (i, q) in qs.into_iter().enumerate() {
+                t.call(q.op, q.args.clone());
+                if i % 37 == 5 { asked.push((q.op.to_string(), q.args)); }
+            }
+            if gi % 2 == 1 {
+                t.call("Tzdb.table", json!({"zone": "Atlantis/Capital"}));
+                t.call("Tzdb.local", json!({"zone": "Atlantis/Capital", "local": local_json(1_000_000_000, 0)}));
+            }
+        }
+        // the same questions again, now that other zones (and failures) are in the provider's history
+        for _ in 0..asked.len().min(40) {
+            let (op, args) = r.pick(&asked).clone();
+            t.call(&op, args);
+        }
+        t.reset();
+    }
+}
+
+fn chars(s: &str) -> Value { Value::Array(s.chars().map(|c| json!(c.to_string())).collect()) }
+
+fn ids(t: &mut Tracer, r: &mut Rng) {
+    t.call("Tzdb.fresh", json!({}));
+    t.call("Tzdb.names", json!({}));
+    let names = iana_names();
+    for n in &names {
+        let mixed: String = n.chars().map(|c| if r.chance(1, 2) { c.to_ascii_uppercase() } else { c.to_ascii_lowercase() }).collect();
+        for s in [n.clone(), n.to_ascii_uppercase(), n.to_ascii_lowercase(), mixed] { t.call("Tzdb.check", json!({"chars": chars(&s)})); }
+        // mutations (some of them are names again, e.g. Etc/GMT+1 -> Etc/GMT+10: the spec decides)
+        let cs: Vec<char> = n.chars().collect();
+        let i = r.range(0, cs.len() as i64 - 1) as usize;
+        let mut del = cs.clone(); del.remove(i);
+        let mut ins = cs.clone(); ins.insert(i, *r.pick(&['a', 'Z', '_', '/', '0', ' ', '-']));
+        let mut rep = cs.clone(); rep[i] = if cs[i] == 'x' { 'y' } else { 'x' };
+        let muts: Vec<String> = vec![del.iter().collect(), ins.iter().collect(), rep.iter().collect(), format!("{} ", n), format!("/{}", n),
+                                     n.replace('/', "_"), n.replace('_', " "), format!("{}0", n), n[..n.len() - 1].to_string()];
+        for _ in 0..3 { let m = r.pick(&muts).clone(); t.call("Tzdb.check", json!({"chars": chars(&m)})); }
+    }
+    for s in ["", " ", "/", "UTC ", "Z", "+00:00", "utc", "gmt", "Etc/Unknown", "posix/UTC", "right/UTC", "posixrules", "localtime", "tzdata.zi", "Europe", "America/Argentina", "../UTC"] {
+        t.call("Tzdb.check", json!({"chars": chars(s)}));
+    }
+}
 
 pub fn drive(t: &mut Tracer, r: &mut Rng, n: usize) {
-    let _ = (t, r, n);
+    // extra arguments after `record c15 <seed> <n> <out>`: mode [part nparts]
+    let a: Vec<String> = std::env::args().collect();
+    let mode = a.get(6).map(|s| s.as_str()).unwrap_or("lookup");
+    let part: usize = a.get(7).and_then(|s| s.parse().ok()).unwrap_or(0);
+    let nparts: usize = a.get(8).and_then(|s| s.parse().ok()).unwrap_or(1);
+    match mode {
+        "ids" => ids(t, r),
+        _ => lookup(t, r, n.max(4), part, nparts),
+    }
 }
